@@ -285,3 +285,10 @@ def check(ctx):
     check_fill_and_buffer(ctx)
     check_overlap_surfaces(ctx)
     ctx.trust(*ASSUMPTIONS)
+
+
+def thorough(ctx):
+    """thorough tier: the declaration constructs used anywhere in the repository (examples, tests,
+    docs) map to analysed strategies / rules"""
+    from ..inventory import inventory
+    inventory(ctx)
